@@ -55,4 +55,17 @@ PROPS = {
             "values are strings without escapes, booleans or integers",
         ],
     },
+    "C13": {
+        "tables": ["AttrSupport"],
+        "rule": "exhaustive small formulas (atoms: 7 backend names, *, 4 supports flags; not/any/all to depth 2) x 7 backends through a one-type module; random bridge modules (1-3 opaque types, 1-2 impl blocks, 1-2 methods) with 0-2 attributes (disable / rename with and without {0}) on module, type, impl and method, formulas to depth 3 incl. unknown names, unknown supports values and auto (error paths) x 7 backends; metamorphic oracle: remove one attribute and compare all 7 real backend outputs; distinct = distinct protocol lines",
+        "trusted_base": [
+            KERNEL, HARNESS,
+            "translator: `match value` arms of is_name_value read with syn; backend flags obtained by calling the real attr_support() through the cfg-guarded hook",
+            "modelled not verified: syn parsing of #[diplomat::attr(...)], the rest of Attrs::from_ast (special methods, namespace, error, demo attrs are outside C13 and counted as errors by the model)",
+        ],
+        "assumptions": [
+            "only opaque types with &self methods are generated (the attribute machinery is the same for structs/enums; enum variants do not inherit disable)",
+            "rename rendering is checked at the HIR level (pattern carried by the item); the spelling in each backend's files is covered by the metamorphic byte-identity oracle only",
+        ],
+    },
 }
